@@ -20,6 +20,14 @@ checked as well as results:
 (e) selections      : take/compress/slice/group/subset/minus/union/intersection: the elements of the result
                       are exactly the elements of the index-set model (found with transforms.index), with
                       equal measure and first moment each: nothing lost, duplicated or overlapping.
+(f) element closure : every element is closed by its own edges: int_{de} n dS == 0 and int_{de} x.n dS == dim * vol(e)
+                      (for trimmed elements: the simplices of the mosaic fill the hull formed by its edges); together with
+                      the ledgers this splits (c) into "elements are sound" and "boundary + interfaces are assembled soundly".
+
+Exceptions are never verdicts: documented refusals (NotImplementedError, ValueError, KeyError, NotImplemented) and the
+AttributeErrors nutils raises for unsupported combinations (refining a Mosaic element, topologies without a connectivity table)
+are counted per signature; anything else raised inside a monitor is counted as monitor_error and makes the run inconclusive
+above 2 % of the histories.  Open ledger entries are matched by exact-accounting predicates (known_mechanism, known_retrim).
 """
 
 import json, time, traceback
@@ -45,7 +53,8 @@ ASSUMPTIONS = ['Gauss quadrature of the degree chosen per geometry (2 affine map
                'periodic axes are generated with >= 3 elements (1- and 2-element periodic axes make an element its own / a double neighbour)']
 import os
 # C10_NCASES / C10_BUDGET: development overrides only (planted-break runs on a loaded machine)
-NCASES = {'quick': int(os.environ.get('C10_NCASES', 700)), 'thorough': int(os.environ.get('C10_NCASES', 10000))}
+NCASES = {'quick': int(os.environ.get('C10_NCASES', 700)), 'thorough': int(os.environ.get('C10_NCASES', 8000))}
+MINCASES = {'quick': 300, 'thorough': 2500}   # below this many histories the run is inconclusive (deadline hit on a loaded machine)
 BUDGET_S = {'quick': int(os.environ.get('C10_BUDGET', 100)), 'thorough': int(os.environ.get('C10_BUDGET', 1500))}
 CHUNK = 10
 EVERY3D = {'quick': 10, 'thorough': 5}
@@ -1061,11 +1070,11 @@ def finalize(m, tier, seed):
     mon = cov['monitors']
     inc = None
     need = ['refine_elementwise', 'selection_elementwise', 'trim_partition', 'trim_elementwise', 'trim_cut_nonempty', 'closure_normal', 'closure_flux',
-            'interfaces_resolved', 'face_ledger', 'connectivity', 'connectivity_centroids', 'connectivity_subset_model', 'connectivity_vs_interfaces',
+            'interfaces_resolved', 'face_ledger', 'element_closure', 'connectivity', 'connectivity_centroids', 'connectivity_subset_model', 'connectivity_vs_interfaces',
             'trim_union', 'negated_trim', 'periodic_jumps']
     floor = 20 if tier == 'quick' else 200
     opfloor = 3 if tier == 'quick' else 20
-    if cov['evaluations'] < 0.5 * NCASES[tier]:
+    if cov['evaluations'] < min(MINCASES[tier], NCASES[tier]):
         inc = f"only {cov['evaluations']} of {NCASES[tier]} histories ran before the deadline"
     elif [k for k in need if mon.get(k, 0) < floor]:
         inc = 'monitors barely reached: ' + ', '.join(f'{k}={mon.get(k, 0)}' for k in need if mon.get(k, 0) < floor)
